@@ -224,6 +224,11 @@ func (m *C18) canaries(w *eng.World, when string) {
 		if classID == "" {
 			return
 		}
+		for _, a := range w.Accts { // the fallback seller must differ from the buyer and the curator
+			if seller.Equals(buyer) && !a.Equals(seller) && !a.Equals(curator) {
+				buyer = a
+			}
+		}
 		r := c.Deliver(&basetypes.MsgCreateProject{Admin: seller.String(), ClassId: classID, Jurisdiction: "US"})
 		if !r.OK {
 			fail("CreateProject", "-", r)
